@@ -113,7 +113,7 @@ class StateVector(np.ndarray):
         for k, v in self._data.items():
             new_compl[k] = v.copy() if hasattr(v, "copy") else v
 
-        new_obj = self.__class__(self.base, **new_compl)
+        new_obj = self.__class__(np.asarray(self), **new_compl)
 
         if same is not None:
             if hasattr(same, "frame") and hasattr(same, "form"):
@@ -195,7 +195,7 @@ class StateVector(np.ndarray):
                 raise KeyError(str(err))
 
     def __str__(self):  # pragma: no cover
-        return str(self.base)
+        return str(np.asarray(self))
 
     def __repr__(self):  # pragma: no cover
         coord_str = "\n".join(
@@ -312,7 +312,7 @@ StateVector =
     def form(self, new_form):
         if isinstance(new_form, str):
             new_form = get_form(new_form)
-        self.base.setfield(self._data["form"](self, new_form), dtype=float)
+        np.asarray(self)[:] = self._data["form"](self, new_form)
         self._data["form"] = new_form
 
     @property
@@ -342,7 +342,7 @@ StateVector =
             self.form = "cartesian"
             try:
                 new_coord = self.frame.transform(self, new_frame)
-                self.base.setfield(new_coord, dtype=float)
+                np.asarray(self)[:] = new_coord
                 self._data["frame"] = new_frame
             finally:
                 self.form = old_form
@@ -369,7 +369,7 @@ StateVector =
 
         new_dict = self._data.copy()
         new_dict["propagator"] = propagator
-        return Orbit(self.base, **new_dict)
+        return Orbit(np.asarray(self), **new_dict)
 
     @property
     def infos(self):
